@@ -18,9 +18,14 @@ ASSUMPTIONS = ['torch autograd chains the per-SCC backward functions (trusted)',
 
 
 def run(ctx):
-    n = 40 if ctx.quick else 600
+    n = 120 if ctx.quick else 600
     k = 0
     attempts = 0
+    # corpus: one label twice on the same pair of nodes in opposite orders, one of the nodes external (the two partial
+    # derivatives of the rule w.r.t. that label differ by a transposition), under a non-uniform cotangent
+    run_case(ctx, dict(nls=[2], terms=[[0, 0], [0]], nts=[[0]], start=0,
+                       rules=[dict(lhs=0, nodes=[0, 0], ext=[0], edges=[('t', 0, [0, 1]), ('t', 0, [1, 0]), ('t', 1, [1])])],
+                       weights={0: [1.0, 2.0, 3.0, 0.5], 1: [1.0, 2.0]}), False, True)
     while k < n and attempts < 20 * n:
         attempts += 1
         recursive = ctx.rng.random() < 0.4
@@ -38,8 +43,26 @@ def run(ctx):
             shape = g1(ctx.rng, dom_sizes=(1, 2, 3, 2))
             shape['weights'] = {i: [x if x != math.inf else 2.0 for x in w] for i, w in shape['weights'].items()}
             lin = True
+        if ctx.rng.random() < 0.3:
+            shape = add_swapped_parallel_edge(ctx.rng, shape)
         if run_case(ctx, shape, recursive, lin):
             k += 1
+
+
+def add_swapped_parallel_edge(rng, shape):
+    """some binary edge whose two nodes carry the same node label gets a parallel copy (same label) with the attachment
+    order swapped: a(u, v) a(v, u) — two derivatives of one rule w.r.t. the same label over the same node SET"""
+    import copy
+    sh = copy.deepcopy(shape)
+    cands = [(ri, ei) for ri, r in enumerate(sh['rules']) for ei, (kind, j, att) in enumerate(r['edges'])
+             if len(att) == 2 and att[0] != att[1] and r['nodes'][att[0]] == r['nodes'][att[1]]]
+    if not cands:
+        return shape
+    ri, ei = rng.choice(cands)
+    kind, j, att = sh['rules'][ri]['edges'][ei]
+    pos = rng.randint(0, len(sh['rules'][ri]['edges']))
+    sh['rules'][ri]['edges'].insert(pos, (kind, j, [att[1], att[0]]))
+    return sh
 
 
 def add_dead_rule(rng, shape):
